@@ -226,13 +226,33 @@ theorem C20_interval_configured (cfg : Cfg) (s0 t0 : Int) (h : cfg.initiator = t
 
 /-- the timers armed by the accepted Logon itself use the new interval: `logonFinish` re-arms the peer timer with the
     value just adopted -/
-theorem C20_logon_arms (s : Sess) (m : InMsg) :
-    ∃ pre, (logonFinish s m).1.log = pre ++ Obs.armPeer (1200 * s.hb) :: s.log := by
+theorem C20_logon_arms (s : Sess) (m : InMsg) (ns : Int) :
+    ∃ pre, (logonFinish s m ns).1.log = pre ++ Obs.armPeer (1200 * s.hb) :: s.log := by
+  have hq : ∀ x : Sess, ∃ pre, (sendQueued x).log = pre ++ x.log := by
+    intro x; unfold sendQueued; split
+    · exact ⟨_, rfl⟩
+    · exact ⟨[], rfl⟩
+  have he : ∀ (x : Sess) (o : OutMsg), ∃ pre, (enqueueAndSend x o).log = pre ++ x.log := by
+    intro x o; unfold enqueueAndSend; simp only []
+    split <;> exact hq _
+  have hx : ∀ x : Sess, ∃ pre, (nxEval x m ns).1.log = pre ++ x.log := by
+    intro x; unfold nxEval
+    repeat' split
+    all_goals first | exact he _ _ | exact ⟨[], rfl⟩
   unfold logonFinish
-  simp only []
-  split
-  · exact ⟨[.onLogon], rfl⟩
-  · exact ⟨[.incT, .onLogon], rfl⟩
+  obtain ⟨pre, hp⟩ := hx (((s.setSentReset false).emit (.armPeer (1200 * s.hb))).emit .onLogon)
+  generalize nxEval _ m ns = r at hp
+  obtain ⟨x, o⟩ := r
+  simp only [] at hp
+  cases o with
+  | some r => exact ⟨pre ++ [.onLogon], by show x.log = _; rw [hp]; simp [Sess.emit, Sess.setSentReset]⟩
+  | none =>
+    simp only []
+    split
+    · exact ⟨pre ++ [.onLogon], by show x.log = _; rw [hp]; simp [Sess.emit, Sess.setSentReset]⟩
+    · exact ⟨.incT :: (pre ++ [.onLogon]), by
+        show Obs.incT :: x.log = _
+        rw [hp]; simp [Sess.emit, Sess.setSentReset]⟩
 
 /-! ### non-vacuity (evaluated by the interpreter at build time) -/
 
